@@ -54,11 +54,14 @@ def build(G, B, r):
     if k == 'probe':
         return Node('probe', r, B.probe(*r[1:]))
     if k == 'dict':
+        # a key may be computed: {'t': 'spec', 'v': <T recipe>}; glom evaluates the value first, then
+        # the key (children = value nodes; extra = literal key | key Node)
         ch = [build(G, B, v) for _, v in r[1]]
+        keys = [build(G, B, kk['v']) if isinstance(kk, dict) else kk for kk, _ in r[1]]
         obj = {}
-        for (kk, _), c in zip(r[1], ch):
-            obj[kk] = c.obj
-        return Node('dict', r, obj, ch, extra=[kk for kk, _ in r[1]])
+        for kk, c in zip(keys, ch):
+            obj[kk.obj if isinstance(kk, Node) else kk] = c.obj
+        return Node('dict', r, obj, ch, extra=keys)
     if k == 'list':
         c = build(G, B, r[1][0])
         return Node('list', r, [c.obj], [c])
@@ -170,7 +173,17 @@ class Walker:
                 raise MErr(f['cls'], 'inj:' + key, f['cls'] in GLOM_FAULTS, n, t)
             return t
         if k == 'dict':
-            return {kk: self.ev(c, t) for kk, c in zip(n.extra, n.children)}
+            out = {}
+            for kk, c in zip(n.extra, n.children):
+                v = self.ev(c, t)
+                if isinstance(kk, Node):
+                    kk = self.ev(kk, t)
+                    try:
+                        hash(kk)
+                    except TypeError:
+                        raise NotImplementedError('unhashable computed key')
+                out[kk] = v
+            return out
         if k == 'list':
             if not isinstance(t, (list, tuple)):
                 raise NotImplementedError('list spec on non-list')
@@ -298,6 +311,13 @@ def parse_trace(message):
     while j < len(lines):
         m = _LINE.match(lines[j])
         if not m:
+            if body and not body[-1][2].startswith(('Target: ', 'Spec: ')) and not lines[j].strip(' ^~') \
+                    and j + 1 < len(lines):
+                # blank / pointer-only line inside a multi-line error message
+                d_, t_, txt_ = body[-1]
+                body[-1] = (d_, t_, txt_ + '\n' + lines[j])
+                j += 1
+                continue
             if lines[j].startswith('>>') and body:
                 # continuation of a multi-line error message (only the first line carries the gutter)
                 d_, t_, txt_ = body[-1]
